@@ -115,6 +115,139 @@ def check_bounds(check, f, subst, rule='C10.R1'):
     return n_ob
 
 
+def k0_protection(check, ic, g, rule='C10.R4'):
+    """after the initial-condition pass, stores to k=0 values are guarded by non-membership in the initial-condition /
+    time-zero set (followed through derived lists); used by C10.R4 and, for decorative variables, by C03"""
+    # ---- R4 ----------------------------------------------------------------------------------------
+    r4 = 0
+    varsname = None
+    for n in ast.walk(ic.node):
+        if isinstance(n, ast.Assign) and isinstance(n.value, ast.Call) and call_name(n.value) == 'TimeSeriesHolder' \
+                and isinstance(n.targets[0], ast.Name):
+            varsname = n.targets[0].id
+    if varsname is None:
+        raise AnalysisError('cannot find the freshly built series holder in ' + ic.qualname)
+    zero_sets = set()
+    for n in ast.walk(ic.node):
+        if isinstance(n, ast.If) and isinstance(n.test, ast.Compare) and isinstance(n.test.ops[0], ast.In) and \
+                _mentions_attr(n.test.comparators[0], 'InitialConditions'):
+            for a in ast.walk(n):
+                if isinstance(a, ast.Assign) and isinstance(a.targets[0], ast.Subscript) and isinstance(a.targets[0].value, ast.Name) \
+                        and a.targets[0].value.id != varsname and isinstance(n.test.left, ast.Name) and \
+                        unparse(a.targets[0].slice) == n.test.left.id:
+                    zero_sets.add(a.targets[0].value.id)
+    from ..cfg import atomic_facts
+
+    def is_zero_membership(e, key):
+        """`key in <time-zero set>` / `key in <...>.InitialConditions` (possibly .keys())"""
+        if not (isinstance(e, ast.Compare) and len(e.ops) == 1 and isinstance(e.ops[0], ast.In) and
+                isinstance(e.left, ast.Name) and e.left.id == key):
+            return False
+        tgt = e.comparators[0]
+        if isinstance(tgt, ast.Call) and call_name(tgt) == 'keys' and isinstance(tgt.func, ast.Attribute):
+            tgt = tgt.func.value
+        # names bound to the time-zero set by plain copies
+        return (isinstance(tgt, ast.Name) and tgt.id in zero_alias) or (isinstance(tgt, ast.Attribute) and tgt.attr == 'InitialConditions')
+    zero_alias = set(zero_sets)
+    changed = True
+    while changed:
+        changed = False
+        for n in ast.walk(ic.node):
+            if isinstance(n, ast.Assign) and len(n.targets) == 1 and isinstance(n.targets[0], ast.Name) and isinstance(n.value, ast.Name):
+                a_, b_ = n.targets[0].id, n.value.id
+                if (a_ in zero_alias) != (b_ in zero_alias):
+                    zero_alias.update((a_, b_))
+                    changed = True
+
+    def list_aliases(name):
+        out = {name}
+        changed = True
+        while changed:
+            changed = False
+            for n in ast.walk(ic.node):
+                if isinstance(n, ast.Assign) and len(n.targets) == 1 and isinstance(n.targets[0], ast.Name) and isinstance(n.value, ast.Name):
+                    a_, b_ = n.targets[0].id, n.value.id
+                    if (a_ in out) != (b_ in out):
+                        out.update((a_, b_))
+                        changed = True
+        return out
+
+    def protected(node, key, depth=0):
+        """reaching `node` implies that `key` is not a variable with an initial condition / known time-zero value:
+        a branch outcome says so, or `key` ranges over a local list that is only filled under such an outcome"""
+        for test, outcome in g.conditions_at(node):
+            if outcome is False and isinstance(test, ast.BoolOp) and isinstance(test.op, ast.Or):
+                if any(is_zero_membership(v, key) for v in test.values):
+                    return 'not (%s)' % unparse(test)
+            for _, v, e in atomic_facts(test, outcome):
+                if v is False and is_zero_membership(e, key):
+                    return 'not (%s)' % unparse(e)
+        if depth > 3:
+            return None
+        for l in reversed([l for l in node.loops if isinstance(l, ast.For)]):
+            lvs = target_names(l.target)
+            if key in lvs and isinstance(l.iter, ast.Name):
+                pos = lvs.index(key)
+                names = list_aliases(l.iter.id)
+                fills = [c for c in ast.walk(ic.node) if isinstance(c, ast.Call) and call_name(c) == 'append' and
+                         isinstance(c.func, ast.Attribute) and isinstance(c.func.value, ast.Name) and c.func.value.id in names]
+                if not fills:
+                    return None
+                why = None
+                for c in fills:
+                    x = c.args[0] if c.args else None
+                    if isinstance(x, ast.Tuple) and pos < len(x.elts) and isinstance(x.elts[pos], ast.Name):
+                        src = x.elts[pos].id
+                    elif isinstance(x, ast.Name) and len(lvs) == 1:
+                        src = x.id
+                    else:
+                        return None
+                    from ..loader import stmt_of
+                    why = protected(g.node_of(stmt_of(c)), src, depth + 1)
+                    if why is None:
+                        return None
+                return why
+        return None
+    for node in g.stmt_nodes():
+        if node.kind != 'stmt' or not isinstance(node.ast, ast.Assign):
+            continue
+        t = node.ast.targets[0]
+        if not (isinstance(t, ast.Subscript) and isinstance(t.value, ast.Name) and t.value.id == varsname):
+            continue
+        loops = [l for l in node.loops if isinstance(l, ast.For)]
+        part = iter_partition(loops[-1]) if loops else None
+        if part == 'Exogenous':
+            continue        # the exogenous pass defines the whole path
+        if loops and isinstance(loops[-1].iter, ast.Attribute) and loops[-1].iter.attr == 'VariableList':
+            continue        # the initial-condition pass itself
+        if not isinstance(t.slice, ast.Name):
+            continue
+        r4 += 1
+        why = protected(node, t.slice.id)
+        ok = why is not None
+        check.ob(rule, '%s::k0-store-guarded(%s pass)' % (ic.key, part or 'derived'), ok, '%s:%d' % (ic.module.rel, node.line),
+                 ('k=0 store guarded by `%s`' % why) if ok else
+                 'k=0 value of a variable with an initial condition can be overwritten by constant propagation',
+                 'initial condition on a constant endogenous / decorative variable')
+    # pass 1 records every IC variable in the time-zero set (so that a guard on that set protects it)
+    rec = bool(zero_sets)
+    check.ob(rule, '%s::ic-recorded-in-time-zero-set' % ic.key, rec, ic.where,
+             'initial conditions are recorded in the time-zero constant set' if rec else
+             'initial conditions are not recorded in the set the later passes consult', 'IC on a decorative constant')
+    # the IC value itself is stored at index 0
+    icstore = False
+    for n in ast.walk(ic.node):
+        if isinstance(n, ast.For) and isinstance(n.iter, ast.Attribute) and n.iter.attr == 'VariableList':
+            for a in ast.walk(n):
+                if isinstance(a, ast.Assign) and isinstance(a.targets[0], ast.Subscript) and \
+                        isinstance(a.targets[0].value, ast.Name) and a.targets[0].value.id == varsname and \
+                        isinstance(a.value, ast.List) and len(a.value.elts) == 1:
+                    icstore = True
+    check.ob(rule, '%s::ic-is-first-point' % ic.key, icstore, ic.where,
+             'every variable starts as the one-element list [ic]' if icstore else 'the k=0 list is not [ic]',
+             'any initial condition')
+
+
 def run(prog, check):
     check.explanation = EXPLANATION
     check.not_decided = 'the numerical values of the series (only lengths, indices, guards and error handling are decided)'
@@ -228,133 +361,7 @@ def run(prog, check):
                 check.ob('C10.R3', '%s::step-argument' % sa.key, ok, '%s:%d' % (sa.module.rel, c.lineno),
                          'the step function receives the loop index', 'any model')
     # ---- R4 ----------------------------------------------------------------------------------------
-    r4 = 0
-    varsname = None
-    for n in ast.walk(ic.node):
-        if isinstance(n, ast.Assign) and isinstance(n.value, ast.Call) and call_name(n.value) == 'TimeSeriesHolder' \
-                and isinstance(n.targets[0], ast.Name):
-            varsname = n.targets[0].id
-    if varsname is None:
-        raise AnalysisError('cannot find the freshly built series holder in ' + ic.qualname)
-    zero_sets = set()
-    for n in ast.walk(ic.node):
-        if isinstance(n, ast.If) and isinstance(n.test, ast.Compare) and isinstance(n.test.ops[0], ast.In) and \
-                _mentions_attr(n.test.comparators[0], 'InitialConditions'):
-            for a in ast.walk(n):
-                if isinstance(a, ast.Assign) and isinstance(a.targets[0], ast.Subscript) and isinstance(a.targets[0].value, ast.Name) \
-                        and a.targets[0].value.id != varsname and isinstance(n.test.left, ast.Name) and \
-                        unparse(a.targets[0].slice) == n.test.left.id:
-                    zero_sets.add(a.targets[0].value.id)
-    from ..cfg import atomic_facts
-
-    def is_zero_membership(e, key):
-        """`key in <time-zero set>` / `key in <...>.InitialConditions` (possibly .keys())"""
-        if not (isinstance(e, ast.Compare) and len(e.ops) == 1 and isinstance(e.ops[0], ast.In) and
-                isinstance(e.left, ast.Name) and e.left.id == key):
-            return False
-        tgt = e.comparators[0]
-        if isinstance(tgt, ast.Call) and call_name(tgt) == 'keys' and isinstance(tgt.func, ast.Attribute):
-            tgt = tgt.func.value
-        # names bound to the time-zero set by plain copies
-        return (isinstance(tgt, ast.Name) and tgt.id in zero_alias) or (isinstance(tgt, ast.Attribute) and tgt.attr == 'InitialConditions')
-    zero_alias = set(zero_sets)
-    changed = True
-    while changed:
-        changed = False
-        for n in ast.walk(ic.node):
-            if isinstance(n, ast.Assign) and len(n.targets) == 1 and isinstance(n.targets[0], ast.Name) and isinstance(n.value, ast.Name):
-                a_, b_ = n.targets[0].id, n.value.id
-                if (a_ in zero_alias) != (b_ in zero_alias):
-                    zero_alias.update((a_, b_))
-                    changed = True
-
-    def list_aliases(name):
-        out = {name}
-        changed = True
-        while changed:
-            changed = False
-            for n in ast.walk(ic.node):
-                if isinstance(n, ast.Assign) and len(n.targets) == 1 and isinstance(n.targets[0], ast.Name) and isinstance(n.value, ast.Name):
-                    a_, b_ = n.targets[0].id, n.value.id
-                    if (a_ in out) != (b_ in out):
-                        out.update((a_, b_))
-                        changed = True
-        return out
-
-    def protected(node, key, depth=0):
-        """reaching `node` implies that `key` is not a variable with an initial condition / known time-zero value:
-        a branch outcome says so, or `key` ranges over a local list that is only filled under such an outcome"""
-        for test, outcome in g.conditions_at(node):
-            if outcome is False and isinstance(test, ast.BoolOp) and isinstance(test.op, ast.Or):
-                if any(is_zero_membership(v, key) for v in test.values):
-                    return 'not (%s)' % unparse(test)
-            for _, v, e in atomic_facts(test, outcome):
-                if v is False and is_zero_membership(e, key):
-                    return 'not (%s)' % unparse(e)
-        if depth > 3:
-            return None
-        for l in reversed([l for l in node.loops if isinstance(l, ast.For)]):
-            lvs = target_names(l.target)
-            if key in lvs and isinstance(l.iter, ast.Name):
-                pos = lvs.index(key)
-                names = list_aliases(l.iter.id)
-                fills = [c for c in ast.walk(ic.node) if isinstance(c, ast.Call) and call_name(c) == 'append' and
-                         isinstance(c.func, ast.Attribute) and isinstance(c.func.value, ast.Name) and c.func.value.id in names]
-                if not fills:
-                    return None
-                why = None
-                for c in fills:
-                    x = c.args[0] if c.args else None
-                    if isinstance(x, ast.Tuple) and pos < len(x.elts) and isinstance(x.elts[pos], ast.Name):
-                        src = x.elts[pos].id
-                    elif isinstance(x, ast.Name) and len(lvs) == 1:
-                        src = x.id
-                    else:
-                        return None
-                    from ..loader import stmt_of
-                    why = protected(g.node_of(stmt_of(c)), src, depth + 1)
-                    if why is None:
-                        return None
-                return why
-        return None
-    for node in g.stmt_nodes():
-        if node.kind != 'stmt' or not isinstance(node.ast, ast.Assign):
-            continue
-        t = node.ast.targets[0]
-        if not (isinstance(t, ast.Subscript) and isinstance(t.value, ast.Name) and t.value.id == varsname):
-            continue
-        loops = [l for l in node.loops if isinstance(l, ast.For)]
-        part = iter_partition(loops[-1]) if loops else None
-        if part == 'Exogenous':
-            continue        # the exogenous pass defines the whole path
-        if loops and isinstance(loops[-1].iter, ast.Attribute) and loops[-1].iter.attr == 'VariableList':
-            continue        # the initial-condition pass itself
-        if not isinstance(t.slice, ast.Name):
-            continue
-        r4 += 1
-        why = protected(node, t.slice.id)
-        ok = why is not None
-        check.ob('C10.R4', '%s::k0-store-guarded(%s pass)' % (ic.key, part or 'derived'), ok, '%s:%d' % (ic.module.rel, node.line),
-                 ('k=0 store guarded by `%s`' % why) if ok else
-                 'k=0 value of a variable with an initial condition can be overwritten by constant propagation',
-                 'initial condition on a constant endogenous / decorative variable')
-    # pass 1 records every IC variable in the time-zero set (so that a guard on that set protects it)
-    rec = bool(zero_sets)
-    check.ob('C10.R4', '%s::ic-recorded-in-time-zero-set' % ic.key, rec, ic.where,
-             'initial conditions are recorded in the time-zero constant set' if rec else
-             'initial conditions are not recorded in the set the later passes consult', 'IC on a decorative constant')
-    # the IC value itself is stored at index 0
-    icstore = False
-    for n in ast.walk(ic.node):
-        if isinstance(n, ast.For) and isinstance(n.iter, ast.Attribute) and n.iter.attr == 'VariableList':
-            for a in ast.walk(n):
-                if isinstance(a, ast.Assign) and isinstance(a.targets[0], ast.Subscript) and \
-                        isinstance(a.targets[0].value, ast.Name) and a.targets[0].value.id == varsname and \
-                        isinstance(a.value, ast.List) and len(a.value.elts) == 1:
-                    icstore = True
-    check.ob('C10.R4', '%s::ic-is-first-point' % ic.key, icstore, ic.where,
-             'every variable starts as the one-element list [ic]' if icstore else 'the k=0 list is not [ic]',
-             'any initial condition')
+    k0_protection(check, ic, g)
     # ---- R5 ----------------------------------------------------------------------------------------
     check_default_t(prog, check)
     # ---- R6 ----------------------------------------------------------------------------------------
